@@ -18,6 +18,8 @@ structure Rel (g : GW) (s : PW) : Prop where
   n : s.n = g.w.iovs.length
   toks : s.toks = g.w.brefs
 
+theorem rel_self (g : GW) : Rel g g.pw := ⟨fun _ _ _ => rfl, rfl, rfl⟩
+
 theorem rel_init (pol : Policy) (tun : Tuning) : Rel (GW.init pol tun) PW.init :=
   ⟨by intro j v h; simp [GW.init, World.init, World.iov] at h, rfl, rfl⟩
 
